@@ -547,6 +547,18 @@ func (g *gen) schedule(pfx string) scenario {
 	}
 	sc.steps = append(sc.steps, st)
 	sc.labels = append(sc.labels, "cron:"+cron)
+	if focus == "cron" {
+		// the dictionary walk continues: two more schedules that differ from an ordinary one in their cron only
+		for _, sfx := range []string{"-b", "-c"} {
+			c2 := g.walk(crons, "cron")
+			st2 := step{HTTPReq: post("/schedules", map[string]any{"id": id + sfx, "cron": c2, "promiseId": tmpl, "promiseTimeout": 300}, nil), mutation: fmt.Sprintf("cron=%q", c2)}
+			if c2 == "" || c2 == "bad" || ((strings.HasPrefix(c2, "TZ=") || strings.HasPrefix(c2, "CRON_TZ=")) && !strings.Contains(c2, " ")) {
+				st2.invalid = true
+			}
+			sc.steps = append(sc.steps, st2)
+			sc.labels = append(sc.labels, "cron:"+c2)
+		}
+	}
 	if rapid.IntRange(0, 2).Draw(g.t, "twin") == 0 {
 		sc.labels = append(sc.labels, "schedule-with-twin")
 		// a second schedule due in the same cycles whose promise id never changes: from its second firing on the promise
